@@ -35,6 +35,7 @@ import (
 	"github.com/AliceO2Group/Control/common/event"
 	"github.com/AliceO2Group/Control/common/event/topic"
 	pb "github.com/AliceO2Group/Control/common/protos"
+	"github.com/AliceO2Group/Control/common/verifhook"
 	"github.com/AliceO2Group/Control/configuration/template"
 	"github.com/AliceO2Group/Control/core/repos"
 	"github.com/AliceO2Group/Control/core/task"
@@ -195,6 +196,7 @@ func (r *aggregatorRole) ProcessTemplates(workflowRepo repos.IRepo, loadSubworkf
 		for roleIdx := range r.Roles {
 			go func(roleIdx int) {
 				defer wg.Done()
+				verifhook.Point("wl.agg.child.start", "agg", r, "idx", roleIdx, "n", len(r.Roles))
 				role := r.Roles[roleIdx]
 				role.setParent(r)
 				err := role.ProcessTemplates(workflowRepo, loadSubworkflow, baseConfigStack)
